@@ -731,8 +731,13 @@ func c10File(r *Run) {
 	nrec := 4 + rng.Intn(30)
 	var recs [][]byte
 	var wants []reflect.Value
+	var prev *Datum
 	for k := 0; k < nrec; k++ {
 		d := genDatum(rng, s)
+		if prev != nil && rng.Intn(3) == 0 {
+			d = prev // the same values again: consecutive records that repeat each other's strings
+			r.Count("B/repeated-record")
+		}
 		w, fits := convDatum(s, g, d)
 		if !fits {
 			k--
@@ -742,6 +747,7 @@ func c10File(r *Run) {
 			}
 			continue
 		}
+		prev = d
 		wants = append(wants, w)
 		recs = append(recs, encodeDatum(s, d, genChoice(rng, s, d)))
 	}
